@@ -62,14 +62,15 @@ where
 {
     fn write_xml(&self, writer: &mut W) -> WriterResult<()> {
         // create a wrapping Rust struct for the service
-        writeln!(writer, "pub struct {} {{", self.name)?;
+        let type_name = service_type_name(&self.name);
+        writeln!(writer, "pub struct {type_name} {{")?;
         writeln!(writer, "    pub client: reqwest::Client,")?;
         writeln!(writer, "    pub location: String,")?;
         writeln!(writer, "    pub credentials: Option<(String, String)>,")?;
         writeln!(writer, "}}")?;
 
         // create an implementation for the service
-        writeln!(writer, "impl {} {{", self.name)?;
+        writeln!(writer, "impl {type_name} {{")?;
         writeln!(
             writer,
             "    pub fn new(credentials: Option<(String, String)>) -> Self {{"
@@ -89,6 +90,16 @@ where
         writeln!(writer, "}}")?;
 
         Ok(())
+    }
+}
+
+/// The service name is schema text that becomes a type name: only identifier characters are kept.
+fn service_type_name(name: &str) -> String {
+    let ident: String = name.chars().filter(|c| c.is_ascii_alphanumeric() || *c == '_').collect();
+    if ident.chars().next().map_or(true, |c| c.is_ascii_digit()) {
+        format!("_{ident}")
+    } else {
+        ident
     }
 }
 
